@@ -25,7 +25,8 @@ _NAMES = ("guarded_content_confined", "reply_ok_meaning", "range_of_clean_body_c
           "guarded_content_confined_with_file_cache",
           "private_spelling_v0_refuted", "cache_directive_v0_refuted", "violates_contradicts_confined",
           "guarded_content_confined_changing_files", "changing_files_extends_fixed_files", "scenario_without_writes_unchanged",
-          "guard_line_any_length", "long_allow_list_decides", "vary_admission_v0_refuted", "violates_w_contradicts_confined")
+          "guard_line_any_length", "long_allow_list_decides", "vary_admission_v0_refuted", "violates_w_contradicts_confined",
+          "allow_ips_variant_never_pushed")
 THEOREMS = [(n, _PINS[n]) for n in _NAMES]
 RULE = ("(1) guards.run: histories of requests against the real kvarn::handle_cache in process (host = Extensions::empty() or, for a third of the "
         "scenarios, Extensions::new() [default Prime 'Expand . and /': /e/ -> /e/index.html, /r. -> /r.html; CORS denial route], + "
@@ -107,7 +108,7 @@ LEVEL_TEXT = ("Coq theorem guarded_content_confined over the model of the repair
               "guarded_content_confined_changing_files: the same for files that CHANGE during the history - a history is any list of (world, "
               "operation), the response cache lives through it and may hold answers of earlier worlds; a reply with the secret answers a request "
               "permitted in the world of its own moment; in particular the 200 computed for a listed client is never pushed as a new variant into an "
-              "item cached earlier (the admission test of handle_vary_missing; refuted without it: vary_admission_v0_refuted, the history public "
+              "item cached earlier (the admission test of handle_vary_missing, allow_ips_variant_never_pushed; refuted without it: vary_admission_v0_refuted, the history public "
               "page cached -> allow-ips line deployed -> listed client, other variant -> stranger, same variant); changing_files_extends_fixed_files / "
               "scenario_without_writes_unchanged tie it to run_g and to the scenario runner of the differential run. guard_line_any_length / "
               "long_allow_list_decides: the '!> ' line has no length limit - for every line of C16's grammar (any number of words of any length) the "
@@ -127,7 +128,7 @@ LEVEL_NOTE = ("Trusted: Coq kernel; extraction (sample re-checked in-kernel); ha
               "fs / error pages / template engine / negotiation / vary / Prime extensions as section variables with the stated hypotheses; Range, "
               "HEAD and the rest of SendKind::send are not modelled (range_of_clean_body_clean + the wire-level oracle). Lines longer than 1025 "
               "bytes (4097 thorough) are run against the real code only (wire component: marker oracle + refused-vs-absent), the theorem about "
-              "them is over the model's parser. No axioms. All 28 statements are pinned (driver/props/pins/C17.json).")
+              "them is over the model's parser. No axioms. All 29 statements are pinned (driver/props/pins/C17.json).")
 TECHNIQUE = ("Coq proof (cache invariants over all histories, also with files that change + per-request decision + simulation for the file cache) + differential correspondence on "
              "kvarn::handle_cache with secret-marker, refused-vs-absent and wire-level oracles")
 
@@ -762,7 +763,7 @@ def long_line_cases(rng, n, tier):
     itself may stand at the very end of the line, behind everything else"""
     cases = []
     for i in range(n):
-        edges = LINE_EDGES + (LINE_EDGES_4K if tier != "quick" and i % 8 == 0 else [])
+        edges = LINE_EDGES + (LINE_EDGES_4K if tier != "quick" and i % 14 == 0 else [])
         rel, line, crlf, listed, pool, shape = long_line(rng, edges, kmax=60 if tier == "quick" or i % 8 else 100)
         files = [xl(xb(b"public/" + rel), xb(content(line, rel, rng, True, crlf=crlf)))]
         tgt = (b"/" + rel, "long", rel, listed, line)
@@ -921,11 +922,11 @@ def generate(rng, tier):
         twins = []
         ops = history(rng, sp, extra_addrs=2, twins=twins)
         cases += mk(rng, files, ops, "malformed-line", both=False, twins=[(a, b, "a" if k == "a" else "h") for a, b, k in twins])
-    cases += transition_cases(rng, 40 if tier == "quick" else 600)
-    cases += long_line_cases(rng, 36 if tier == "quick" else 500, tier)
+    cases += transition_cases(rng, 40 if tier == "quick" else 360)
+    cases += long_line_cases(rng, 36 if tier == "quick" else 280, tier)
     cases += wire_cases(rng, 36 if tier == "quick" else 500)
-    cases += long_line_wire_cases(rng, 12 if tier == "quick" else 120)
-    cases += transition_wire_cases(rng, 8 if tier == "quick" else 100)
+    cases += long_line_wire_cases(rng, 12 if tier == "quick" else 60)
+    cases += transition_wire_cases(rng, 8 if tier == "quick" else 48)
     cases += push_cases(rng, 6 if tier == "quick" else 60)
     cases += expiry_cases(rng, 2 if tier == "quick" else 8)
     return cases
